@@ -19,6 +19,7 @@ extends it again — with the monitors of Uquic/Spec/H3GlueMon.lean.
 import Uquic.Props.C19Glue
 import Uquic.Proofs.TrailerGate
 import Uquic.Proofs.RespFault
+import Uquic.Proofs.ReqLockFault
 
 namespace Uquic.Props.C19Fault
 open Uquic.Model.H3.Fields Uquic.Model.H3.Glue
@@ -183,5 +184,36 @@ example : (serve .markAfter [.writeHeader 103, .deadline true, .write 5000, .dea
     [.hdr 103 none, .hdr 200 (some 5010), .data 10, .trl] := by decide
 
 end Resp
+
+/-! ## 3. the shared request writer when a write fails -/
+section Req
+open Uquic.Model.H3.ReqLockFault
+open Uquic.Model.H3.ReqLock (expected)
+
+/-- `failed_request_leaves_writer_clean`: whichever writeHeaders calls fail at whichever of their two
+    writes, under EVERY schedule every call that finishes has written the length of ITS OWN header
+    block followed by ITS OWN header block — the early return resets the shared buffer and releases the
+    mutex (deferred), so a failed request leaves nothing behind. -/
+theorem failed_request_leaves_writer_clean (blocks : Nat → List Nat) (fails : Nat → Nat) (sched : List Nat) (i : Nat)
+    (hdone : ((run .resetAlways (init blocks fails) sched).w i).pc = 5) :
+    ((run .resetAlways (init blocks fails) sched).w i).out = expected (blocks i) :=
+  Uquic.Proofs.ReqLockFault.finished_writes_own_block blocks fails sched i hdone
+
+/-- the discipline matters: resetting the buffer on the success path only makes the request after a
+    failed one announce 6 bytes and send the failed request's block in front of its own -/
+theorem reset_on_success_unsafe :
+    let st := run .resetOnSuccess (init (fun i => if i = 0 then [1, 2, 3] else [7, 8, 9]) (fun i => if i = 0 then 1 else 0))
+      [0, 0, 0, 1, 1, 1, 1, 1]
+    (st.w 0).pc = 6 ∧ (st.w 1).pc = 5 ∧ (st.w 1).out = [6, 1, 2, 3, 7, 8, 9] ∧ (st.w 1).out ≠ expected [7, 8, 9] := by
+  decide
+
+/-- the scripted requests of the h3g driver: a failed call is reported as failed, every other call
+    emits its own block -/
+theorem conc_faults_own_block :
+    emittedBlocks 2 [1, 0] = [3, 1] ∧ emittedBlocks 2 [2, 0] = [3, 1] ∧ emittedBlocks 3 [0, 2, 0] = [0, 4, 2] ∧
+    emittedBlocks 3 [1, 1, 0] = [4, 4, 2] := by
+  decide
+
+end Req
 
 end Uquic.Props.C19Fault
